@@ -185,7 +185,8 @@ Fixpoint starts_paren (g : tree) : bool :=
   | _ => false
   end.
 
-(* Lua's call ambiguity: a statement that starts with '(' directly follows a ';' *)
+(* Lua's call ambiguity: a statement that starts with '(' directly follows a ';' (prev = true also lets it be the
+   first statement of the list: the first statement of a block that is not the body of a one-line if) *)
 Fixpoint pguard (prev : bool) (l : list tree) : bool :=
   match l with
   | [] => true
@@ -194,11 +195,12 @@ Fixpoint pguard (prev : bool) (l : list tree) : bool :=
   end.
 
 (* one-line if: the body has a first item, which is not a do-block (picotool reads `if (c) do` as
-   `if (c) then`, known finding); an else part has at least one statement (picotool drops an empty one) *)
+   `if (c) then`, known finding) and does not start with '(' (`if (c) (f)()` is the condition `(c)(f)()`);
+   an else part has at least one statement (picotool drops an empty one) *)
 Definition shortif_ok (fs : list tree) : bool :=
   match fs with
-  | [_; Lst (Lst [_; Node _ _ _ _ [Lst (x :: _)]] :: rest)] =>
-      negb (is_tag x tStatDo) &&
+  | [_; Lst (Lst [_; Node _ _ _ _ [Lst (x :: r)]] :: rest)] =>
+      negb (is_tag x tStatDo) && pguard false (x :: r) &&
       match rest with
       | [] => true
       | [_; Lst [_; Node _ _ _ _ [Lst l2]]] => existsb (fun y => negb (is_hidden y)) l2
@@ -211,7 +213,7 @@ Fixpoint in_frag (g : tree) : bool :=
   match g with
   | Node tag _ _ sh fs =>
       (negb sh || (tag =? tStatIf)) &&
-      (if tag =? tChunk then match fs with [Lst l] => pguard false l | _ => true end else true) &&
+      (if tag =? tChunk then match fs with [Lst l] => pguard true l | _ => true end else true) &&
       (if (tag =? tStatIf) && sh then shortif_ok fs else true) &&
       forallb in_frag fs
   | Lst l => forallb in_frag l
@@ -219,6 +221,32 @@ Fixpoint in_frag (g : tree) : bool :=
   | Hid x => in_frag x
   | _ => true
   end.
+
+(* the exclusions alone: in_frag without the well-formedness of the short flags, which [derives] checks *)
+Fixpoint excl (g : tree) : bool :=
+  match g with
+  | Node tag _ _ sh fs =>
+      (if tag =? tChunk then match fs with [Lst l] => pguard true l | _ => true end else true) &&
+      (if (tag =? tStatIf) && sh then shortif_ok fs else true) &&
+      forallb excl fs
+  | Lst l => forallb excl l
+  | Paren _ _ x => excl x
+  | Hid x => excl x
+  | _ => true
+  end.
+
+Lemma in_frag_of_excl g : excl g = true -> flags_ok g = true -> in_frag g = true.
+Proof.
+  induction g as [tag s e sh fs IH| | l IH| | | | |i j x IH|x IH] using tree_ind'; intros H1 H2; try reflexivity.
+  - cbn [excl flags_ok in_frag] in *. apply andb_true_iff in H1. destruct H1 as [H1 H1f]. apply andb_true_iff in H1. destruct H1 as [H1a H1b].
+    apply andb_true_iff in H2. destruct H2 as [H2a H2f]. rewrite H2a, H1a, H1b. cbn [andb].
+    clear -IH H1f H2f. induction IH as [|x r Hx _ IH2]; [reflexivity|]. cbn [forallb] in *.
+    apply andb_true_iff in H1f, H2f. destruct H1f as [A1 A2], H2f as [B1 B2]. rewrite (Hx A1 B1), (IH2 A2 B2). reflexivity.
+  - cbn [excl flags_ok in_frag] in *. induction IH as [|x r Hx _ IH2]; [reflexivity|]. cbn [forallb] in *.
+    apply andb_true_iff in H1, H2. destruct H1 as [A1 A2], H2 as [B1 B2]. rewrite (Hx A1 B1), (IH2 A2 B2). reflexivity.
+  - cbn [excl flags_ok in_frag] in *. apply IH; assumption.
+  - cbn [excl flags_ok in_frag] in *. apply IH; assumption.
+Qed.
 
 Section Ctx.
 Variable ts : list token.
@@ -233,6 +261,18 @@ Fixpoint tokdata_ok (g : tree) : bool :=
   | Tok i t => match ParserProofs.tok_at ts i with Some u => zlist_eqb (tdata u) (tdata t) | None => false end
   | _ => true
   end.
+
+Lemma tokdata_of_leaves_ok g : leaves_ok ts g = true -> tokdata_ok g = true.
+Proof.
+  induction g as [tag s e sh fs IH| i t | l IH| | | | |i j x IH|x IH] using tree_ind'; intros H; try reflexivity.
+  - cbn [leaves_ok tokdata_ok] in *. induction IH as [|x r Hx _ IH2]; [reflexivity|]. cbn [forallb] in *.
+    apply andb_true_iff in H. destruct H as [A1 A2]. rewrite (Hx A1), (IH2 A2). reflexivity.
+  - cbn [leaves_ok tokdata_ok] in *. unfold ParserProofs.tok_at. destruct (i <? 0); [discriminate H | exact H].
+  - cbn [leaves_ok tokdata_ok] in *. induction IH as [|x r Hx _ IH2]; [reflexivity|]. cbn [forallb] in *.
+    apply andb_true_iff in H. destruct H as [A1 A2]. rewrite (Hx A1), (IH2 A2). reflexivity.
+  - cbn [leaves_ok tokdata_ok] in *. apply IH, H.
+  - cbn [leaves_ok tokdata_ok] in *. apply IH, H.
+Qed.
 
 Definition LS (x : tree) : bool :=
   match first_last (leaves x) with
